@@ -21,6 +21,7 @@ deriving Repr
 inductive Kind
   | bin
   | cont (lb ub : Option Rat)
+  | int (ub : Nat)              -- general integer `0 .. ub` (`addVar(vtype="I")`; aldy's own models have none)
 deriving Repr
 
 structure Ilp (V : Type) where
@@ -45,6 +46,7 @@ def Kind.ok (k : Kind) (x : Rat) : Prop :=
   match k with
   | .bin => x = 0 ∨ x = 1
   | .cont lb ub => (∀ l, lb = some l → l ≤ x) ∧ (∀ u, ub = some u → x ≤ u)
+  | .int ub => ∃ n : Nat, x = (n : Rat) ∧ n ≤ ub
 
 /-- `σ` is a feasible point of the model. -/
 def Ilp.Sat (m : Ilp V) (σ : V → Rat) : Prop :=
